@@ -79,10 +79,10 @@ ED(n, k, on)    == [name |-> n, k |-> k, v |-> 0, del |-> TRUE, items |-> FALSE,
 EI(n, k, v, on) == [name |-> n, k |-> k, v |-> v, del |-> FALSE, items |-> TRUE, on |-> on]
 EID(n, k, on)   == [name |-> n, k |-> k, v |-> 0, del |-> TRUE, items |-> TRUE, on |-> on]
 
-Edits == {
+EditSeq == <<
   \* narrowing
-  E("minimum_raised",        "minimum", 8,  {"INT", "NUM"}),
-  E("maximum_lowered",       "maximum", 8,  {"INT", "NUM"}),
+  E("minimum_raised",        "minimum", 8,  {"INT", "NUM", "INTX"}),
+  E("maximum_lowered",       "maximum", 8,  {"INT", "NUM", "INTX"}),
   E("minimum_added",         "minimum", 8,  {"INTPLAIN", "NUMPLAIN"}),
   E("maximum_added",         "maximum", 8,  {"INTPLAIN", "NUMPLAIN"}),
   E("exclusiveMinimum_added","exclusiveMinimum", TRUE, {"INT", "NUM"}),
@@ -114,11 +114,12 @@ Edits == {
   EI("items_maxLength_lowered", "maxLength", 2, {"ARRSTR"}),
   EI("items_enum_added",     "enum", <<"a", "ab">>, {"ARRSTR"}),
   \* widening / neutral (MustBreak is FALSE; they exercise the other direction and feed C14)
-  E("minimum_lowered",       "minimum", 2,  {"INT", "NUM"}),
-  E("maximum_raised",        "maximum", 14, {"INT", "NUM"}),
+  E("minimum_lowered",       "minimum", 2,  {"INT", "NUM", "INTX"}),
+  E("maximum_raised",        "maximum", 14, {"INT", "NUM", "INTX"}),
   ED("minimum_removed",      "minimum", {"INT", "NUM"}),
   ED("maximum_removed",      "maximum", {"INT", "NUM"}),
   ED("exclusiveMinimum_removed", "exclusiveMinimum", {"INTX"}),
+  ED("exclusiveMaximum_removed", "exclusiveMaximum", {"INTX"}),
   E("minLength_lowered",     "minLength", 0, {"STR"}),
   E("maxLength_raised",      "maxLength", 4, {"STR"}),
   ED("maxLength_removed",    "maxLength", {"STR"}),
@@ -129,7 +130,8 @@ Edits == {
   E("maxItems_raised",       "maxItems", 4, {"ARR"}),
   ED("minItems_removed",     "minItems", {"ARR"}),
   EID("items_maxLength_removed", "maxLength", {"ARRSTR"})
-}
+>>
+Edits == {EditSeq[i] : i \in DOMAIN EditSeq}
 
 ApplyEdit(leaf, e) ==
   IF e.items
@@ -191,9 +193,9 @@ ValCands(leaf) ==
 
 \* wire form of a value for a simple parameter in collectionFormat cf
 RawOf(v, cf) ==
-  IF v.t = "arr"
-    THEN IF cf = "multi" THEN [i \in DOMAIN v.v |-> <<LexOf(v.v[i])>>]
-         ELSE <<JoinToks(cf, [i \in DOMAIN v.v |-> <<LexOf(v.v[i])>>])>>
+  IF Tag(v) = "arr"
+    THEN IF cf = "multi" THEN [i \in DOMAIN Val(v) |-> <<LexOf(Val(v)[i])>>]
+         ELSE <<JoinToks(cf, [i \in DOMAIN Val(v) |-> <<LexOf(Val(v)[i])>>])>>
     ELSE IF LexOf(v) = "" THEN << <<>> >> ELSE << <<LexOf(v)>> >>
 
 WrapBody(loc, v) ==
